@@ -236,6 +236,41 @@ def _norm_key(e, bind):
     return (kind, payload, guards, region)
 
 
+def _local_flags(fn):
+    out = set()
+    for n in own_nodes(fn.node):
+        if isinstance(n, ast.Assign) and isinstance(n.value, ast.Constant) and isinstance(n.value.value, bool):
+            for t in n.targets:
+                if isinstance(t, ast.Name):
+                    out.add(t.id)
+    return out
+
+
+def _restructured(tee, to, kt, kw):
+    """same multiset of (kind, payload with HDR and ROW unified), and at least one side steers its sink effects with a
+    local boolean flag or has no separate header phase"""
+    import re
+
+    def atoms(ks):
+        return sorted((k, re.sub(r'\bHDR\b', 'ROW', p)) for k, p, g, r in ks)
+
+    def dedup(xs):
+        out = []
+        for x in xs:
+            if x not in out:
+                out.append(x)
+        return out
+    if dedup(atoms(kt)) != dedup(atoms(kw)):
+        return False
+    for fn, ks in ((tee, kt), (to, kw)):
+        flags = _local_flags(fn)
+        if any(re.search(r'\b%s\b' % re.escape(f), ' '.join(g)) for k, p, g, r in ks for f in flags):
+            return True
+        if not any('HDR' in p for k, p, g, r in ks) and any('ROW' in p for k, p, g, r in ks):
+            return True
+    return False
+
+
 def r162(ctx, rep):
     for tee_fq, to_fq, bind in PAIRS:
         tee = ctx.project.need_fn(tee_fq)
@@ -256,6 +291,11 @@ def r162(ctx, rep):
             if raw_t != raw_w:
                 rep.note('platform note: %s and %s pass different but POSIX-equivalent newline arguments (%s vs %s)'
                          % (tee.qualname, to.qualname, raw_t, raw_w))
+        elif _restructured(tee, to, kt, kw):
+            rep.undecided('R16.2', tee, pair,
+                          'tee and writer perform the same kinds of sink effects with the same payloads, but one of them was '
+                          'restructured (header handled inside the data loop under a local flag / rows chained): the '
+                          'guard and order comparison does not apply to that shape', tee.node)
         else:
             import difflib
             a = ['%s(%s)%s%s' % (k, p, (' if ' + ' and '.join(g)) if g else '', ('@' + r) if r else '') for k, p, g, r in kt]
